@@ -204,6 +204,7 @@ func (x *Exec) verifyFuncPass(d *Decl, res *UnitResult, fd *ast.FuncDecl, fixed 
 	x.frames = []*frame{fr}
 	x.onlyPost = onlyPost
 	x.panicsIf = nil
+	x.ghosts = map[string]Value{}
 	if !onlyPost {
 		x.inputs = nil
 	}
@@ -257,7 +258,7 @@ func (x *Exec) verifyFuncPass(d *Decl, res *UnitResult, fd *ast.FuncDecl, fixed 
 		return // specialization contradicts the precondition: nothing to prove
 	}
 	for _, c := range d.Clauses {
-		if c.Kind == "use" && c.FnName != "" {
+		if c.Kind == "use" && c.FnName != "" && c.SplitVar == "" {
 			rc := &Clause{Kind: "use", FnName: c.FnName + "_req", Text: c.Text}
 			fa := x.frozenArgs(cargs, st)
 			x.oblige("lemma-pre", st, x.evalClause(pk, rc, fa, st), fd, "requires of lemma instance "+c.Text)
@@ -276,17 +277,6 @@ func (x *Exec) verifyFuncPass(d *Decl, res *UnitResult, fd *ast.FuncDecl, fixed 
 			}
 		}
 	}
-	if !onlyPost {
-		for _, c := range d.Clauses {
-			if c.Kind == "split" && c.FnName != "" {
-				t := x.evalClause(pk, c, entryArgs, st)
-				var lo, hi int64
-				fmt.Sscan(c.SplitLo, &lo)
-				fmt.Sscan(c.SplitHi, &hi)
-				splitOf[d] = &SplitSpec{Term: t, Lo: lo, Hi: hi, Text: c.Text}
-			}
-		}
-	}
 	end := x.execBlock(fd.Body.List, st)
 	if end != nil && !end.dead() {
 		if sig.Results().Len() > 0 {
@@ -296,6 +286,23 @@ func (x *Exec) verifyFuncPass(d *Decl, res *UnitResult, fd *ast.FuncDecl, fixed 
 	}
 	if !onlyPost {
 		res.Returns = len(fr.rets)
+		splitOf[d] = nil
+		var gv []Value
+		for _, c := range d.Clauses {
+			if c.Kind == "ghost" {
+				g, _ := x.ghostValue(c.SplitLo)
+				gv = append(gv, g)
+			}
+		}
+		for _, c := range d.Clauses {
+			if c.Kind == "split" && c.FnName != "" {
+				t := x.evalClause(pk, c, append(append([]Value{}, entryArgs...), gv...), x.entry.clone())
+				var lo, hi int64
+				fmt.Sscan(c.SplitLo, &lo)
+				fmt.Sscan(c.SplitHi, &hi)
+				splitOf[d] = append(splitOf[d], &SplitSpec{Term: t, Lo: lo, Hi: hi, Text: c.Text})
+			}
+		}
 	}
 	established := false
 	var invDecl *Decl
@@ -362,8 +369,15 @@ func (x *Exec) verifyFuncPass(d *Decl, res *UnitResult, fd *ast.FuncDecl, fixed 
 		} else if x.panicsIf != nil {
 			rs.assume(mkNot(x.panicsIf))
 		}
+		var gvals []Value
+		for _, c := range d.Clauses {
+			if c.Kind == "ghost" {
+				g, _ := x.ghostValue(c.SplitLo)
+				gvals = append(gvals, g)
+			}
+		}
 		for _, c := range ensures {
-			t := x.evalClause(pk, c, append(append([]Value{}, postArgs...), rvals...), rs)
+			t := x.evalClause(pk, c, append(append(append([]Value{}, postArgs...), gvals...), rvals...), rs)
 			x.oblige("post"+suffix, rs, t, fd, "ensures "+c.Text)
 		}
 	}
@@ -373,7 +387,7 @@ func (x *Exec) verifyFuncPass(d *Decl, res *UnitResult, fd *ast.FuncDecl, fixed 
 	x.onlyPost = false
 }
 
-var splitOf = map[*Decl]*SplitSpec{}
+var splitOf = map[*Decl][]*SplitSpec{}
 
 func (d *Decl) nullable() bool {
 	for _, c := range d.Clauses {
@@ -421,12 +435,20 @@ func (x *Exec) verifyLemma(d *Decl, res *UnitResult) {
 		}
 	}
 	for _, c := range d.Clauses {
+		if c.Kind == "use" && c.FnName != "" {
+			rc := &Clause{Kind: "use", FnName: c.FnName + "_req", Text: c.Text}
+			x.oblige("lemma-pre", st, x.evalClause(pk, rc, args, st), nil, "requires of lemma instance "+c.Text)
+			st.assume(x.evalClause(pk, c, args, st))
+			x.usedLemmas[strings.TrimSpace(c.Text[:strings.Index(c.Text, "(")])] = true
+		}
+	}
+	for _, c := range d.Clauses {
 		if c.Kind == "split" && c.FnName != "" {
 			t := x.evalClause(pk, c, args, st)
 			var lo, hi int64
 			fmt.Sscan(c.SplitLo, &lo)
 			fmt.Sscan(c.SplitHi, &hi)
-			splitOf[d] = &SplitSpec{Term: t, Lo: lo, Hi: hi, Text: c.Text}
+			splitOf[d] = append(splitOf[d], &SplitSpec{Term: t, Lo: lo, Hi: hi, Text: c.Text})
 		}
 	}
 	for _, c := range d.Clauses {
@@ -470,7 +492,7 @@ func (x *Exec) verifyGhost(d *Decl, res *UnitResult) {
 			var lo, hi int64
 			fmt.Sscan(c.SplitLo, &lo)
 			fmt.Sscan(c.SplitHi, &hi)
-			splitOf[d] = &SplitSpec{Term: t, Lo: lo, Hi: hi, Text: c.Text}
+			splitOf[d] = append(splitOf[d], &SplitSpec{Term: t, Lo: lo, Hi: hi, Text: c.Text})
 		}
 	}
 	x.entry = st.clone()
